@@ -27,6 +27,12 @@
  *          "W <window>"  "C <bytes changed outside window and trampoline>"
  *          "CP <n> <perms before freeze> <perms after freeze>"   "END"
  *        or "FATAL <status>" when the child exits (pr_err) or dies.
+ *  MOD <pathname>
+ *        match_pattern_module() on the current list        -> "MO <0|1> <get_soname(pathname)|->"
+ *  FIND <elf path> <wbase> <window> <nsym> {<addr> <size> <type> <name>}*
+ *        (in a forked child) mcount_arch_find_module() for a module whose file is <elf path> (a real
+ *        ELF without patchable/xray sections), whose code is the window and whose symbol table is the
+ *        given one                                   -> "FT <mdi->type> <check_trace_functions()>"
  *  QUIT
  */
 #include "libmcount/dynamic.c"
@@ -189,6 +195,21 @@ static void do_query(void)
 	free(name);
 }
 
+static void do_mod(void)
+{
+	char *path = unhex_str(next_tok());
+	char *so = get_soname(path);
+
+	printf("MO %d ", match_pattern_module(path));
+	if (so)
+		puthex((unsigned char *)so, strlen(so));
+	else
+		printf("-");
+	printf("\n");
+	free(so);
+	free(path);
+}
+
 static void upd_child(void)
 {
 	int type = atoi(next_tok());
@@ -347,6 +368,51 @@ static void upd_child(void)
 	_exit(0);
 }
 
+static void find_child(void)
+{
+	char *elf = unhex_str(next_tok());
+	unsigned long wbase = strtoul(next_tok(), NULL, 0);
+	static unsigned char win[65536];
+	int wlen = unhex(next_tok(), win, sizeof win);
+	int nsym = atoi(next_tok());
+	struct uftrace_symbol *syms = xcalloc(nsym + 1, sizeof(*syms));
+	struct uftrace_module *mod;
+	struct uftrace_mmap *map;
+	struct mcount_dynamic_info *mdi;
+	unsigned char *region;
+	int i, npages = (wbase + wlen + 64) / PG + 1;
+
+	for (i = 0; i < nsym; i++) {
+		syms[i].addr = strtoul(next_tok(), NULL, 0);
+		syms[i].size = strtoul(next_tok(), NULL, 0);
+		syms[i].type = atoi(next_tok());
+		syms[i].name = unhex_str(next_tok());
+	}
+	region = mmap(NULL, npages * PG, PROT_READ | PROT_WRITE, MAP_PRIVATE | MAP_ANONYMOUS, -1, 0);
+	if (region == MAP_FAILED) {
+		printf("ERR mmap\n");
+		exit(3);
+	}
+	memset(region, 0xcc, npages * PG);
+	memcpy(region + wbase, win, wlen);
+	mod = xzalloc(sizeof(*mod) + 16);
+	strcpy(mod->name, "mod");
+	mod->symtab.sym = syms;
+	mod->symtab.nr_sym = nsym;
+	map = make_map(elf);
+	map->start = (unsigned long)region;
+	map->end = map->start + npages * PG;
+	map->mod = mod;
+	mdi = xzalloc(sizeof(*mdi));
+	mdi->map = map;
+	mdi->base_addr = map->start;
+	INIT_LIST_HEAD(&mdi->bad_syms);
+	mcount_arch_find_module(mdi, &mod->symtab);
+	printf("FT %d %d\n", mdi->type, check_trace_functions(elf));
+	fflush(stdout);
+	_exit(0);
+}
+
 int main(void)
 {
 	static char line[400000];
@@ -362,12 +428,16 @@ int main(void)
 			do_pat();
 		else if (!strcmp(cmd, "Q"))
 			do_query();
-		else if (!strcmp(cmd, "UPD")) {
+		else if (!strcmp(cmd, "MOD"))
+			do_mod();
+		else if (!strcmp(cmd, "UPD") || !strcmp(cmd, "FIND")) {
 			pid_t pid;
 			int status = 0;
 			fflush(stdout);
 			pid = fork();
 			if (pid == 0) {
+				if (!strcmp(cmd, "FIND"))
+					find_child();
 				upd_child();
 				_exit(0);
 			}
